@@ -707,7 +707,7 @@ pub fn execute(case: &Case, decider: Decider) -> Outcome {
         }
         // tear down: drop the executor (possibly with tasks still parked), then
         // fire and drop every remaining waker - must be a no-op
-        *sh.spawner.borrow_mut() = None;
+        let late_spawner = sh.spawner.borrow_mut().take();
         let unfinished_before: Vec<u32> = (0..model.tasks.len() as u32).filter(|t| !model.tasks[*t as usize].done).collect();
         drop(exec);
         for ch in 0..case.channels as usize {
@@ -719,6 +719,33 @@ pub fn execute(case: &Case, decider: Decider) -> Outcome {
                     w.wake_by_ref();
                     drop(w);
                 }
+            }
+        }
+        // a Spawner that outlives its executor refuses to spawn and hands the
+        // future back (which is then dropped exactly once, never polled)
+        if let Some(sp) = late_spawner {
+            let id = sh.new_id();
+            model.tasks.push(MTask {
+                done: true,
+                ..Default::default()
+            });
+            let fut = Scripted {
+                id,
+                script: vec![Act::Signal(0)],
+                pc: 0,
+                child: None,
+                awaiting: false,
+                finished: false,
+                sh: Rc::clone(&sh),
+            };
+            // SAFETY: single thread
+            match unsafe { sp.spawn(fut) } {
+                Ok(_) => {
+                    if violation.is_none() {
+                        violation = Some(("spawn-after-drop".into(), "Spawner::spawn succeeded after the executor was dropped".into()));
+                    }
+                }
+                Err(e) => drop(e),
             }
         }
         let polls_after = sh.log.borrow().len();
